@@ -805,7 +805,7 @@ func (g *Gen) genC19(n int) error {
 		}
 		mf := g.fresh("f")
 		d1, d2 := g.randDrops(g.ndocs[segs[0]]), g.randDrops(g.ndocs[segs[1]])
-		g.emit("mergeengfaults %s segs=%s drops=%s|%s", mf, strList(segs), d1, d2)
+		g.emit("mergeengfaults %s segs=%s drops=%s|%s cancel=%s", mf, strList(segs), d1, d2, b01(i%2 == 1))
 		m := g.fresh("m")
 		g.emit("open %s %s", m, mf)
 		u := newUniverse()
@@ -816,6 +816,26 @@ func (g *Gen) genC19(n int) error {
 		g.emit("vstats %s", m)
 		g.emit("q count %s", m)
 		g.emit("close %s", m)
+		// the shapes a merge may special-case: a single input, without and with deletions; the same
+		// input next to one that has no vectors at all
+		if g.ndocs[segs[1]] < 50 {
+			g.emit("mergeengfaults %s segs=%s drops=nil", g.fresh("f"), segs[1])
+			if g.ndocs[segs[1]] > 1 {
+				g.emit("mergeengfaults %s segs=%s drops=0", g.fresh("f"), segs[1])
+			}
+			bt := &BatchSpec{Name: g.fresh("b")}
+			for d := 0; d < 3; d++ {
+				id := []byte(fmt.Sprintf("%s-%d", bt.Name, d))
+				bt.Docs = append(bt.Docs, DocSpec{ID: id, Plain: true, Fields: []FieldSpec{{Kind: "fld", Name: "_id", Typ: 't', Stored: true, Len: 1, Val: id, Toks: []TokSpec{{Term: id, Freq: 1}}}}})
+			}
+			g.emitBatch(bt)
+			st := g.fresh("s")
+			g.emit("build %s %s", st, bt.Name)
+			g.newBuilt(st, bt)
+			g.emit("mergeengfaults %s segs=%s,%s drops=nil|nil", g.fresh("f"), st, segs[1])
+			g.emit("close %s", st)
+			g.st("fault.shapes")
+		}
 		for _, s := range segs {
 			g.emit("close %s", s)
 		}
